@@ -88,6 +88,22 @@ class BoundedCtx:
             return True
         return False
 
+    def pmap(self, func: Callable, items: list, procs: int = 16, batch: int = 64):
+        """Evaluate func over items on a fork pool (func must be a module-level function); yields (item, result)
+        in order and stops submitting new batches once the tier's time budget is used up."""
+        import multiprocessing as mp
+        items = list(items)
+        if not items:
+            return
+        ctx = mp.get_context('fork')
+        with ctx.Pool(min(procs, len(items))) as pool:
+            for i in range(0, len(items), batch):
+                if self.out_of_time():
+                    return
+                chunk = items[i:i + batch]
+                for it, res in zip(chunk, pool.map(func, chunk, chunksize=max(1, len(chunk) // (procs * 2)))):
+                    yield it, res
+
     def case(self, desc: Any, nontrivial: bool = True) -> None:
         self.evaluations += 1
         if nontrivial:
